@@ -1,5 +1,5 @@
 #!/bin/sh
 # Run every behaviour-preserving patch (own: mutants/equivalent, sub-agent refactors:
-# mutants/refactors, mutants/refactors2) through all 20 checks; every line must end in "alarms: none".
+# mutants/refactors, mutants/refactors2, mutants/refactors3) through all 20 checks; every line must end in "alarms: none".
 cd "$(dirname "$0")/.."
-for p in mutants/equivalent/*.patch mutants/refactors/*.patch mutants/refactors2/*.patch; do tools/try_equiv.sh "$p" "${1:-quick}" | grep -E '^(EQUIV|VIOLATION|  violation)'; done
+for p in mutants/equivalent/*.patch mutants/refactors/*.patch mutants/refactors2/*.patch mutants/refactors3/*.patch; do tools/try_equiv.sh "$p" "${1:-quick}" | grep -E '^(EQUIV|VIOLATION|  violation)'; done
